@@ -226,6 +226,9 @@ def check_protocols(repo, res, facts):
                       sample='%s: every member of the family (%d classes) provides .%s or the read is guarded'
                              % (key, len(fam), attr))
     res.count('protocol_sites', nsites, floor=4)
+    # the supporting fact of the reasoned entry `scope` below, decided by interpretation
+    from .. import resolve_model
+    resolve_model.check_name_scope(repo, res, 'C08-R3')
 
 
 # attributes assigned from outside the class before the object becomes reachable (reasoned)
@@ -416,3 +419,5 @@ def check_recursion(repo, res, facts, cg):
     from .. import api_model
     api_model.apply(res, [r for r in api_model.evaluate_model(repo) if 'terminates' in r[1]], {'guard': 'C08-R4'}, 'supp/evaluator.py', 0)
     api_model.apply(res, api_model.declarations_model(repo), {'cycle': 'C08-R4'}, 'supp/evaluator.py', 0)
+    # those guards compare by identity: the project must hand out one module object per name within a request
+    api_model.apply(res, api_model.cache_history_model(repo, 3), {'identity': 'C08-R4'}, 'supp/project.py', 0)
